@@ -716,6 +716,9 @@ def oracle_C16(run):
                 f.append('rset_data_init called %d times with queue_len %d' % (o['rset_init_calls'], q))
             minrec = 13 if o.get('fmt') == 'fastq' else 9
             per_set = _buf_bound(o) // minrec + 1
+            if 'max_set' in o and o.get('rec_init_calls', 0) > (q + 1) * o['max_set']:
+                f.append('record_data_init called %d times: the %d data sets hold at most %d records each, so output slots '
+                         'were created again instead of being reused' % (o['rec_init_calls'], q + 1, o['max_set']))
             if o.get('rec_init_calls', 0) > (q + 1) * per_set:
                 f.append('record_data_init called %d times: more than (queue_len+1) x the largest possible '
                          'record set (%d)' % (o['rec_init_calls'], per_set))
